@@ -586,3 +586,16 @@ mod tests {
         }
     }
 }
+
+/// Verification access shims (compiled only by the Kani model checker).
+#[cfg(kani)]
+pub mod verif_access {
+    /// Calls the private `mix`.
+    pub fn mix(a: &mut u32, b: &mut u32, c: &mut u32) {
+        super::mix(a, b, c);
+    }
+    /// Calls the private `final_mix`.
+    pub fn final_mix(a: &mut u32, b: &mut u32, c: &mut u32) {
+        super::final_mix(a, b, c);
+    }
+}
